@@ -38,7 +38,7 @@ def run(ctx):
     traces.append(t)
     # (2) the wrappers over a pre-populated mutable registry
     t = os.path.join(td, 'wrappers.ndjson')
-    rc.run_reg(ctx, vh, t, stacks='ro(mem);immw(mem);http(ro(mem));http(immw(http(mem)))', n=30 if quick else 800, steps=50,
+    rc.run_reg(ctx, vh, t, stacks='ro(mem);immw(mem);http(ro(mem));http(immw(http(mem)));ro(funcs(mem));immw(funcs(mem))', n=30 if quick else 800, steps=50,
                imm='false', extra=['-honest', '-pre', '25'])
     traces.append(t)
     # (2b) two callers racing through the immutable wrapper: every interleaving of the calls it makes on the registry
